@@ -102,6 +102,7 @@ func (c *Command) UnmarshalBinary(uplink bool, data []byte) error {
 	}
 
 	c.CID = CID(data[0])
+	c.Payload = nil // a command without payload must not keep a previous one
 
 	p, err := GetCommandPayload(uplink, c.CID)
 	if err != nil {
@@ -147,6 +148,9 @@ func (c Commands) MarshalBinary() ([]byte, error) {
 // UnmarshalBinary decodes a slice of bytes into a slice of commands.
 func (c *Commands) UnmarshalBinary(uplink bool, data []byte) error {
 	var i int
+
+	// do not append to the commands of a previous decode
+	*c = nil
 
 	for i < len(data) {
 		var cmd Command
@@ -300,6 +304,10 @@ func (p *McGroupStatusAnsPayload) UnmarshalBinary(data []byte) error {
 	if len(data) == 0 {
 		return errors.New("lorawan/applayer/multicastsetup: at least 1 byte is expected")
 	}
+
+	// do not keep the mask bits and items of a previous decode
+	p.Status.AnsGroupMask = [4]bool{}
+	p.Items = nil
 
 	var ansGroupMaskCount int
 	for i := range p.Status.AnsGroupMask {
@@ -672,6 +680,8 @@ func (p *McClassCSessionAnsPayload) UnmarshalBinary(data []byte) error {
 		copy(ttsB, data[1:4])
 		tts := binary.LittleEndian.Uint32(ttsB)
 		p.TimeToStart = &tts
+	} else {
+		p.TimeToStart = nil
 	}
 
 	return nil
@@ -840,6 +850,8 @@ func (p *McClassBSessionAnsPayload) UnmarshalBinary(data []byte) error {
 		copy(ttsB, data[1:4])
 		tts := binary.LittleEndian.Uint32(ttsB)
 		p.TimeToStart = &tts
+	} else {
+		p.TimeToStart = nil
 	}
 
 	return nil
